@@ -219,3 +219,55 @@ def link_attr(draw, n, directed=False, lo=1, hi=20, denom=4.0):
         W = W + W.T
     np.fill_diagonal(W, 0)
     return W.tolist()
+
+
+def represent_adj(A, key=None):
+    """The same 0/1 adjacency matrix as another 'square array-like': int64,
+    int8, bool, float64, Fortran order, nested lists, scipy csr / csc / coo -
+    chosen as a pure function of the matrix (or of `key`)."""
+    import zlib
+    import scipy.sparse as sp
+    A = np.ascontiguousarray(np.asarray(A).astype(np.int64))
+    if key is None:
+        key = zlib.crc32(A.tobytes()) ^ (len(A) * 2654435761 & 0xffffffff)
+    k = key % 9
+    if k == 1:
+        return A.astype(np.int8)
+    if k == 2:
+        return A.astype(bool)
+    if k == 3:
+        return A.astype(np.float64)
+    if k == 4:
+        return np.asfortranarray(A)
+    if k == 5:
+        return A.tolist()
+    if k == 6:
+        return sp.csr_matrix(A)
+    if k == 7:
+        return sp.csc_matrix(A)
+    if k == 8:
+        return sp.coo_matrix(A)
+    return A
+
+
+def represent_weights(w, key=None):
+    """Node weights as list, float64 / float32 (when exact) array, integer
+    array (when integral) or tuple."""
+    import zlib
+    if w is None:
+        return None
+    a = np.asarray(w, dtype=np.float64)
+    if key is None:
+        key = zlib.crc32(a.tobytes()) + 3 * len(a)
+    k = key % 5
+    if k == 1:
+        return [float(v) for v in a]
+    if k == 2:
+        b = a.astype(np.float32)
+        if np.array_equal(b.astype(np.float64), a):
+            return b
+    if k == 3 and (a == np.round(a)).all():
+        return a.astype(np.int64)
+    if k == 4:
+        return tuple(float(v) for v in a)
+    return a
